@@ -61,6 +61,9 @@ fn strategy_name(s: AllocationStrategy) -> &'static str {
 
 #[allow(clippy::too_many_arguments)]
 struct Header {
+    /// every loan is longer than the one before, one loan at a time, nothing is held: every step
+    /// forces a reallocation of the data segment
+    staircase: bool,
     initial: usize,
     max_borrow: usize,
     max_loans: usize,
@@ -112,7 +115,12 @@ fn scenario(
     for step in 0..steps {
         // choose the next length: mostly growing, sometimes small again; Static never exceeds the
         // initial length except for one deliberate oversize request
-        let req = if strategy == AllocationStrategy::Static {
+        let req = if hdr.staircase {
+            len = len * 2 + 1;
+            grown += 1;
+            hdr.grown = grown;
+            len
+        } else if strategy == AllocationStrategy::Static {
             if step == steps / 2 { initial + 1 } else { rng.range(1, initial as u64) as usize }
         } else if rng.chance(1, 4) {
             rng.range(1, len as u64) as usize
@@ -124,7 +132,13 @@ fn scenario(
             len
         };
         // several loans at the same time (up to the configured limit, and one beyond it now and then)
-        let k = if rng.chance(1, 5) { max_loans + 1 } else { rng.range(1, max_loans as u64) as usize };
+        let k = if hdr.staircase {
+            1
+        } else if rng.chance(1, 5) {
+            max_loans + 1
+        } else {
+            rng.range(1, max_loans as u64) as usize
+        };
         let mut loans = vec![];
         for _ in 0..k {
             n += 1;
@@ -169,6 +183,12 @@ fn scenario(
                 }
                 Ok(None) => recs.push(Rec { a: "recv", n: m, len: 0, r: "none".into(), ok: 0, addr: 0 }),
                 Err(e) => recs.push(Rec { a: "recv", n: m, len: 0, r: format!("{e:?}"), ok: 0, addr: 0 }),
+            }
+        }
+        if hdr.staircase {
+            for (hn, hs) in held.drain(..) {
+                drop(hs);
+                recs.push(Rec { a: "release", n: hn, len: 0, r: "ok".into(), ok: 1, addr: 0 });
             }
         }
         // random release
@@ -316,8 +336,14 @@ pub fn main(args: &Args) {
     let scenarios = args.num("scenarios", 6);
     let steps = args.num("steps", 20);
     let mut w = TraceWriter::create(&args.get("out").expect("--out"));
+    // growing segments whose chunk alignment exceeds the alignment of the payload start in the
+    // shared memory go to their own file
+    let mut wu = TraceWriter::create(&args.get("out-unaligned").expect("--out-unaligned"));
     let mut rng = vlib::rng::Rng::new(vlib::seed_from_env().wrapping_mul(104729).wrapping_add(3));
 
+    if std::env::var("VERIF_LOUD").is_ok() {
+        set_log_level(LogLevel::Debug);
+    }
     let mut config = Config::default();
     config.global.prefix = FileName::new(prefix.as_bytes()).expect("prefix");
     config.global.set_root_path(&Path::new(root.as_bytes()).expect("root"));
@@ -326,24 +352,37 @@ pub fn main(args: &Args) {
     let mut summary = std::collections::HashMap::new();
     let strategies = [AllocationStrategy::BestFit, AllocationStrategy::PowerOfTwo, AllocationStrategy::Static];
     for run in 0..scenarios {
-        let strategy = strategies[(run % 3) as usize];
-        // every strategy meets every payload alignment (the first rounds use the large ones)
-        let palign = [64usize, 256, 8, 1][((run / 3) % 4) as usize];
+        // the first scenarios are staircases (BestFit / PowerOfTwo, alignment 64 and 8)
+        let staircase = run < 4;
+        let (strategy, palign) = if staircase {
+            ([AllocationStrategy::BestFit, AllocationStrategy::PowerOfTwo][(run % 2) as usize], [64usize, 8][(run / 2) as usize])
+        } else {
+            let r = run - 4;
+            // every strategy meets every payload alignment (the first rounds use the large ones)
+            (strategies[(r % 3) as usize], [64usize, 256, 8, 1][((r / 3) % 4) as usize])
+        };
         let mut hdr = Header {
-            initial: *rng.pick(&[1usize, 3, 8, 16, 100, 1000]),
+            staircase,
+            initial: if staircase { 1 } else { *rng.pick(&[1usize, 3, 8, 16, 100, 1000]) },
             max_borrow: 5,
-            max_loans: *rng.pick(&[1usize, 2, 3]),
+            max_loans: if staircase { 1 } else { *rng.pick(&[1usize, 2, 3]) },
             grown: 0,
         };
         let mut recs: Vec<Rec> = vec![];
+        let nsteps = if staircase { 14 } else { steps };
         let r = std::panic::catch_unwind(std::panic::AssertUnwindSafe(|| {
-            scenario(&node, run, &mut rng, strategy, palign, steps, &mut hdr, &mut recs)
+            scenario(&node, run, &mut rng, strategy, palign, nsteps, &mut hdr, &mut recs)
         }));
         if r.is_err() {
             recs.push(Rec { a: "panic", n: 0, len: 0, r: "panic".into(), ok: 0, addr: 0 });
         }
-        emit(&mut w, run, strategy, palign, &hdr, &recs, &mut summary);
+        let unaligned = strategy != AllocationStrategy::Static && palign >= 16;
+        emit(if unaligned { &mut wu } else { &mut w }, run, strategy, palign, &hdr, &recs, &mut summary);
+        if staircase {
+            *summary.entry("scenario:staircase".into()).or_insert(0) += 1;
+        }
     }
+    wu.flush();
     w.flush();
-    println!("{}", json!({"scenarios":scenarios,"events":w.lines,"per_action":summary}));
+    println!("{}", json!({"scenarios":scenarios,"events":w.lines,"events_unaligned":wu.lines,"per_action":summary}));
 }
